@@ -341,10 +341,13 @@ def _impl_run(case) -> ImplResult:
         from probdiffeq._ivpsolve import solvers_via_adaptive_steps as sas
         from probdiffeq.backend import flow
 
-        key = ("loop_seq", kind, clip, defaults, tuple(float(x) for x in params))
+        # values do not depend on whether the step size is excluded from differentiation: both settings of the (public)
+        # flag must give the model's trace (seeded change C06-s7: clipping moved under `if self.stop_gradient_through_dt`)
+        sg = bool(len(case["save"]) % 2)
+        key = ("loop_seq", kind, clip, defaults, tuple(float(x) for x in params), sg)
         if key not in _JIT:
             ctl = make_control(kind, [float(x) for x in params], defaults)
-            rl = sas.RejectionLoop(solver=SOLVER, clip_dt=clip, error=ERROR, control=ctl, while_loop=flow.while_loop)
+            rl = sas.RejectionLoop(solver=SOLVER, clip_dt=clip, error=ERROR, control=ctl, while_loop=flow.while_loop, stop_gradient_through_dt=sg)
             _JIT[key] = (rl, jax.jit(lambda st, t1, sc, e: rl.loop(st, t1=t1, atol=sc, rtol=0.0, eps=e, damp=0.0)))
         rl, jl = _JIT[key]
         sol0 = SOLVER.init(save[0], u, damp=0.0)
